@@ -24,7 +24,7 @@
 From Coq Require Import ZArith List Bool Permutation.
 From Model Require Import PyBase Graph Rings RingsFilter RingsGen RingsGenSpec.
 From Gen Require Import RingsConsts.
-From Proofs Require Import RingsProofs RingsMcb RingsRank RingsExt RingsDim RingsFund RingsMin RingsHorton RingsSizes RingsIso RingsEquiv RingsFilterProofs RingsGenProofs RingsGenWalks RingsMarks RingsConstsProofs RingsCanon.
+From Proofs Require Import RingsProofs RingsMcb RingsRank RingsExt RingsDim RingsFund RingsMin RingsHorton RingsSizes RingsIso RingsEquiv RingsFilterProofs RingsGenProofs RingsGenWalks RingsMarks RingsConstsProofs RingsCanon RingsRounds.
 Import ListNotations.
 Open Scope Z_scope.
 
@@ -635,3 +635,17 @@ Print Assumptions C06_sssr_model_canonical.
 Theorem C06_canonical_unique : forall r r', NoDup r -> (3 <= length r)%nat -> canonical r -> canonical r' -> dihedral r r' -> r = r'.
 Proof. exact canonical_unique. Qed.
 Print Assumptions C06_canonical_unique.
+
+(* ---- the round-by-round states of _make_pid that the check compares with the real run are the states of the model: each is
+   one pid_k step after the previous one, and the last is the result of make_pid ---- *)
+Theorem C06_make_pid_rounds_step : forall paths r k,
+  nth_error (keys (fst (fst (fold_left pid_init_step (sort_paths paths) ([], [], []))))) r = Some k ->
+  make_pid_rounds paths (S r) =
+  pid_k (keys (fst (fst (fold_left pid_init_step (sort_paths paths) ([], [], []))))) (make_pid_rounds paths r) k.
+Proof. exact make_pid_rounds_step. Qed.
+Print Assumptions C06_make_pid_rounds_step.
+
+Theorem C06_make_pid_rounds_last : forall paths,
+  make_pid_rounds paths (length (keys (fst (fst (fold_left pid_init_step (sort_paths paths) ([], [], [])))))) = make_pid paths.
+Proof. exact make_pid_rounds_last. Qed.
+Print Assumptions C06_make_pid_rounds_last.
